@@ -119,6 +119,9 @@ func genLongWidths(t *rapid.T, c *Case, m *model) {
 			if total < 0 {
 				total = 0
 			}
+			if rapid.IntRange(0, 2).Draw(t, "extreme") == 2 {
+				return extremeWidths[rapid.IntRange(0, len(extremeWidths)-1).Draw(t, "extremeWidth")]
+			}
 			return rapid.SampledFrom([]int{0, 3, total / 2, total + 10, 7}).Draw(t, "width")
 		}
 		k := rapid.SampledFrom([]int{3, 4, 2, 5, 6, 3, 4}).Draw(t, "piecesPerLine")
